@@ -245,3 +245,30 @@ func ExtractOf(v ssa.Value, idx int) []*ssa.Extract {
 	}
 	return out
 }
+
+// ReturnResults returns the values a Return yields, seeing through defer-spilled results:
+// in a function with defers go/ssa stores each result into a result cell, runs the defers
+// and returns the reloaded cells; the value stored last in the return's own block is reported.
+func ReturnResults(r *ssa.Return) []ssa.Value {
+	out := make([]ssa.Value, len(r.Results))
+	for i, v := range r.Results {
+		out[i] = v
+		u, ok := v.(*ssa.UnOp)
+		if !ok {
+			continue
+		}
+		a, ok := u.X.(*ssa.Alloc)
+		if !ok {
+			continue
+		}
+		for _, ins := range r.Block().Instrs {
+			if ins == ssa.Instruction(r) {
+				break
+			}
+			if st, ok := ins.(*ssa.Store); ok && st.Addr == ssa.Value(a) {
+				out[i] = st.Val
+			}
+		}
+	}
+	return out
+}
